@@ -19,7 +19,7 @@ func errorPage(failErr *fail.Error) (string, error) {
 		"debugMode": userConfig.DebugMode,
 	}
 
-	result, err := EvaluateString(defaultErrorPage, data)
+	result, err := evaluateString(defaultErrorPage, data)
 	if err != nil {
 		return "", err
 	}
